@@ -237,6 +237,10 @@ def run(tier, seed):
     executed += tf["feeds"]
     cov["tail_f"] = tf
 
+    rb = reader_batch_sweep(mlr, V, thorough)
+    executed += rb["runs"]
+    cov["reader_batch_sweep"] = rb
+
     for fam, inv in design_violations:
         # a violation in the design is a verdict only if the real binary shows it: the B3/B1/sweep
         # runs above executed every configuration of these families
@@ -599,6 +603,63 @@ def printhead_probe(mlr, V):
         V.violation({"shape": "stdout-text-upstream-of-early-exit-head", "why": "successful run with wrong output"},
                     {"argv": cases[0]["argv"][1:], "line_counts": [o.count("\n") for o in outs], "batch_sizes": [1, 2, 10, 500, 5000]})
     return {"differs": differs, "line_counts": [o.count("\n") for o in outs]}
+
+
+def reader_batch_sweep(mlr, V, thorough):
+    """Every reader on inputs whose structure spans lines (header blocks, blank-line separated records, multi-line cells,
+    comments), under every small batch size, so that each structural line falls first, last and in the middle of a batch:
+    the bytes on stdout and the exit status are the same for all sizes (BatchIndependence; nothing is known here about
+    what the outputs should be)."""
+    blocks = [("a,b,c", ["1,2,3", "4,5,6"]), ("d,e,f", ["7,8,9"]), ("a,b,c", ["10,11,12", "13,14,15", "16,17,18"]), ("g", ["19"]), ("d,e", ["20,21", "22,23"])]
+
+    def lite(sep, blank="\n"):
+        return blank.join(h.replace(",", sep) + "\n" + "".join(r.replace(",", sep) + "\n" for r in rows) for h, rows in blocks)
+    xtab = "\n".join("".join("%s %s\n" % (k, v) for k, v in zip(h.split(","), r.split(","))) for h, rows in blocks for r in rows)
+    inputs = {
+        "csvlite": (["--icsvlite", "--ojson"], lite(",")), "csvlite-2blank": (["--icsvlite", "--ojson"], lite(",", "\n\n")),
+        "csvlite-ragged": (["--icsvlite", "--allow-ragged-csv-input", "--ojson"], lite(",")),
+        "pprint": (["--ipprint", "--ojson"], lite(" ")), "tsvlite": (["--itsvlite", "--ojson"], lite("\t")),
+        "xtab": (["--ixtab", "--ojson"], xtab), "xtab-2blank": (["--ixtab", "--ojson"], xtab.replace("\n\n", "\n\n\n")),
+        "csv-multiline": (["--icsv", "--ojson"], "a,b\n" + "".join('%d,"x\ny%d\nz"\n' % (i, i) for i in range(1, 9))),
+        "csv-comments": (["--icsv", "--pass-comments", "--ojson"], "#c0\na,b\n" + "".join("%d,%d\n#c%d\n" % (i, i, i) for i in range(1, 9))),
+        "csv-skip-comments": (["--icsv", "--skip-comments", "--ojson"], "a,b\n" + "".join("%d,%d\n#c%d\n" % (i, i, i) for i in range(1, 9))),
+        "csv-implicit": (["--icsv", "--implicit-csv-header", "--ojson"], "".join("%d,%d\n" % (i, i) for i in range(1, 9))),
+        "csv-ragged": (["--icsv", "--allow-ragged-csv-input", "--ojson"], "a,b,c\n1,2\n3,4,5,6\n7\n8,9,10\n"),
+        "dkvp-comments": (["--pass-comments", "--ojson"], "".join("a=%d\n#c%d\n" % (i, i) for i in range(1, 9))),
+        "nidx": (["--inidx", "--ifs", "space", "--ojson"], "".join("w%d x%d  y%d\n" % (i, i, i) for i in range(1, 9))),
+        "json-mixed": (["--ijson", "--ojsonl"], '{"a":1}\n[{"a":2},{"a":3}]\n{"a":\n{"b":4}}\n[{"a":5}]\n{"a":6} {"a":7}\n'),
+        "jsonl": (["--ijsonl", "--ojson"], "".join('{"a": %d, "b": {"c": [%d]}}\n' % (i, i) for i in range(1, 9))),
+        "markdown": (["--imd", "--ojson"], "| a | b |\n| --- | --- |\n" + "".join("| %d | %d |\n" % (i, i) for i in range(1, 9))),
+        "usv-like": (["--icsv", "--ifs", ";", "--irs", "|", "--ojson"], "a;b|" + "".join("%d;%d|" % (i, i) for i in range(1, 9))),
+    }
+    sizes = [1, 2, 3, 4, 5, 6, 7, 8, 9, 500]
+    cases, meta = [], []
+    for name, (flags, text) in inputs.items():
+        for chain in (["cat"], ["tac"], ["head", "-n", "4"]):
+            if chain[0] == "head" and "--pass-comments" in flags:
+                continue        # (how many comment lines pass after head is done is the known print-before-head finding)
+            for b in sizes:
+                cases.append({"argv": [mlr] + flags + ["--records-per-batch", str(b)] + chain, "stdin": text, "timeout_ms": 15000})
+                meta.append((name, tuple(chain), b))
+    res = vlib.run_cases(cases)
+    vlib.confirm_timeouts(cases, res)
+    by = {}
+    for m, r in zip(meta, res):
+        by.setdefault(m[:2], []).append((m[2], r))
+    differing = []
+    for (name, chain), lst in by.items():
+        if any(r["timed_out"] for _, r in lst):
+            V.violation({"shape": "hang", "reader": name, "chain": list(chain)}, {"reader": name})
+            continue
+        groups = {}
+        for b, r in lst:
+            groups.setdefault((r["exit"], r["stdout"]), []).append(b)
+        if len(groups) > 1:
+            differing.append([name, list(chain)])
+            V.violation({"shape": "reader-output-depends-on-batch-size", "reader": name, "chain": list(chain)},
+                        {"argv": cases[0]["argv"][1:1] + inputs[name][0] + list(chain), "input": inputs[name][1][:400],
+                         "batch_sizes_by_outcome": [{"exit": k[0], "stdout": k[1][:300], "sizes": v} for k, v in groups.items()]})
+    return {"runs": len(cases), "readers": sorted(inputs), "batch_sizes": sizes, "differing": differing}
 
 
 def seed_check(mlr, V, thorough):
